@@ -29,6 +29,88 @@ type evalCtx struct {
 	rec     *loopRec
 	depth   int
 	inOld   bool
+	inPrev    bool
+	absIdx    *absIndex
+	varsAfter bool // parameters (entry values) shadow current source variables (ensures clauses)
+}
+
+type absIndex struct {
+	slice, iTerm, k string
+}
+
+// goExprQuiet translates without emitting definitions that could be left dangling (the translation of a
+// slice-valued sub-expression has no side effects other than harmless heap declarations).
+func (cx *evalCtx) goExprQuiet(e ast.Expr) (TV, error) { return cx.goExpr(e) }
+
+// findIndexedBy returns the first expression s such that s[v] occurs in e and s does not mention v.
+func findIndexedBy(e *SExpr, v string) ast.Expr {
+	if e == nil {
+		return nil
+	}
+	switch e.Op {
+	case "imp", "iff":
+		if r := findIndexedBy(e.R, v); r != nil {
+			return r
+		}
+		return findIndexedBy(e.L, v)
+	case "forall", "exists":
+		for _, p := range e.Vars {
+			if p.Name == v {
+				return nil
+			}
+		}
+		return findIndexedBy(e.Body, v)
+	case "go":
+		var found ast.Expr
+		ast.Inspect(e.Go, func(n ast.Node) bool {
+			if found != nil {
+				return false
+			}
+			if ix, ok := n.(*ast.IndexExpr); ok {
+				if id, ok := ix.Index.(*ast.Ident); ok && id.Name == v && !mentions(ix.X, v) && !hasHole(ix.X) {
+					if c, isCall := ix.X.(*ast.CallExpr); isCall {
+						if f, ok := c.Fun.(*ast.Ident); ok && (f.Name == "old" || f.Name == "prev") {
+							return true // state-dependent base: skip
+						}
+					}
+					found = ix.X
+					return false
+				}
+			}
+			return true
+		})
+		if found != nil {
+			return found
+		}
+		for _, h := range e.Holes {
+			if r := findIndexedBy(h, v); r != nil {
+				return r
+			}
+		}
+	}
+	return nil
+}
+
+func mentions(e ast.Expr, v string) bool {
+	m := false
+	ast.Inspect(e, func(n ast.Node) bool {
+		if id, ok := n.(*ast.Ident); ok && id.Name == v {
+			m = true
+		}
+		return !m
+	})
+	return m
+}
+
+func hasHole(e ast.Expr) bool {
+	m := false
+	ast.Inspect(e, func(n ast.Node) bool {
+		if id, ok := n.(*ast.Ident); ok && strings.HasPrefix(id.Name, "hole__") {
+			m = true
+		}
+		return !m
+	})
+	return m
 }
 
 func (cx *evalCtx) sub() *evalCtx {
@@ -92,8 +174,25 @@ func (cx *evalCtx) expr(e *SExpr) (TV, error) {
 			n.bound[p.Name] = TV{name, sort, t}
 			decl = append(decl, fmt.Sprintf("(%s %s)", name, sort))
 			if _, isPtr := t.Underlying().(*types.Pointer); !isPtr {
-				if _, _, isInt := intRange(t); !isInt { // mathematical integers in quantifiers
+				if p.Type != "int" { // `int` bound variables are mathematical integers (indices)
 					guards = append(guards, cx.run.typeInv(name, t, cx.st))
+				}
+			}
+		}
+		// Re-parametrisation (single int variable used as a slice index): quantify over the absolute array
+		// index k = off + i instead of i, so that the trigger (select (select E arr) k) contains no arithmetic.
+		pattern := ""
+		if len(e.Vars) == 1 && e.Vars[0].Type == "int" {
+			if base := findIndexedBy(e.Body, e.Vars[0].Name); base != nil {
+				if bt, err := n.goExprQuiet(base); err == nil && bt.Sort == SSlice && bt.T != nil && !strings.Contains(bt.S, n.bound[e.Vars[0].Name].S) {
+					if sl, ok := bt.T.Underlying().(*types.Slice); ok && !isAggregate(sl.Elem()) {
+						k := n.bound[e.Vars[0].Name]
+						off := app("s_off", bt.S)
+						n.bound[e.Vars[0].Name] = TV{app("-", k.S, off), SInt, k.T}
+						n.absIdx = &absIndex{slice: bt.S, iTerm: app("-", k.S, off), k: k.S}
+						_, h := cx.run.elemHeap(n.st, sl.Elem())
+						pattern = app("select", app("select", h, app("s_arr", bt.S)), k.S)
+					}
 				}
 			}
 		}
@@ -103,7 +202,11 @@ func (cx *evalCtx) expr(e *SExpr) (TV, error) {
 		}
 		g := and(guards...)
 		if e.Op == "forall" {
-			return TV{fmt.Sprintf("(forall (%s) %s)", strings.Join(decl, " "), implies(g, b)), SBool, nil}, nil
+			body := implies(g, b)
+			if pattern != "" && strings.Contains(body, pattern) {
+				body = fmt.Sprintf("(! %s :pattern (%s))", body, pattern)
+			}
+			return TV{fmt.Sprintf("(forall (%s) %s)", strings.Join(decl, " "), body), SBool, nil}, nil
 		}
 		return TV{fmt.Sprintf("(exists (%s) %s)", strings.Join(decl, " "), and(g, b)), SBool, nil}, nil
 	case "go":
@@ -273,6 +376,11 @@ func (cx *evalCtx) ident(name string) (TV, error) {
 	case "nil":
 		return TV{"nil", "nil", nil}, nil
 	}
+	if cx.varsAfter {
+		if v, ok := cx.binds[name]; ok {
+			return cx.valToTV(v, cx.btypes[name])
+		}
+	}
 	if cx.useVars && !cx.inOld {
 		if v, ok := cx.st.vars[name]; ok {
 			return cx.valToTV(v, nil)
@@ -331,6 +439,9 @@ func (cx *evalCtx) object(o types.Object) (TV, error) {
 	case *types.Var:
 		// package-level variable
 		if g, ok := cx.run.eng.prog.Package(x.Pkg()).Members[x.Name()].(*ssa.Global); ok {
+			if cx.fr == nil {
+				cx.fr = &Frame{run: cx.run}
+			}
 			v := cx.fr.val(cx.st, g)
 			if a, ok := v.(*Addr); ok {
 				return cx.run.load(cx.st, a), nil
@@ -484,7 +595,7 @@ func (cx *evalCtx) goExpr(e ast.Expr) (TV, error) {
 			}
 			hi = h.S
 		}
-		return TV{app("mk_slice", app("s_arr", base.S), app("+", app("s_off", base.S), lo), app("-", hi, lo), app("-", app("s_cap", base.S), lo)), SSlice, base.T}, nil
+		return TV{app("mk_slice", app("s_arr", base.S), add(app("s_off", base.S), lo), sub(hi, lo), sub(app("s_cap", base.S), lo)), SSlice, base.T}, nil
 	case *ast.CallExpr:
 		return cx.call(x)
 	case *ast.TypeAssertExpr:
@@ -543,7 +654,7 @@ func (cx *evalCtx) selectField(base TV, name string) (TV, error) {
 				cur = TV{app(s.subFunc(si, fi), cur.S), SInt, types.NewPointer(ft)}
 				continue
 			}
-			cur = r.loadField(cx.st, cur.S, si, fi)
+			cur = cx.ranged(r.loadField(cx.st, cur.S, si, fi))
 			continue
 		}
 		si := s.structOf(ct)
@@ -588,7 +699,10 @@ func (cx *evalCtx) index(base, idx TV) (TV, error) {
 			return r.loadAt(cx.st, ref, et), nil
 		}
 		_, h := r.elemHeap(cx.st, et)
-		return TV{app("select", app("select", h, app("s_arr", base.S)), app("+", app("s_off", base.S), idx.S)), s.sortOf(et), et}, nil
+		if cx.absIdx != nil && idx.S == cx.absIdx.iTerm && base.S == cx.absIdx.slice {
+			return cx.ranged(TV{app("select", app("select", h, app("s_arr", base.S)), cx.absIdx.k), s.sortOf(et), et}), nil
+		}
+		return cx.ranged(TV{app("select", app("select", h, app("s_arr", base.S)), add(app("s_off", base.S), idx.S)), s.sortOf(et), et}), nil
 	case *types.Array:
 		return TV{app("select", base.S, idx.S), s.sortOf(t.Elem()), t.Elem()}, nil
 	case *types.Map:
@@ -601,6 +715,17 @@ func (cx *evalCtx) index(base, idx TV) (TV, error) {
 		}
 	}
 	return TV{}, fmt.Errorf("cannot index %s", base.T)
+}
+
+// ranged asserts the type range of a heap value read inside a contract when the term is ground.
+func (cx *evalCtx) ranged(tv TV) TV {
+	if tv.T == nil || strings.Contains(tv.S, "q_") {
+		return tv
+	}
+	if _, _, ok := intRange(tv.T); ok {
+		cx.run.assumeGlobal(cx.run.typeInv(tv.S, tv.T, cx.st))
+	}
+	return tv
 }
 
 func arrayElemSort(sort string) string {
@@ -731,6 +856,7 @@ func (cx *evalCtx) call(x *ast.CallExpr) (TV, error) {
 			}
 			n := cx.sub()
 			n.st = cx.rec.head
+			n.inPrev = true
 			return n.goExpr(x.Args[0])
 		case "len", "cap":
 			a, err := cx.goExpr(x.Args[0])
@@ -1044,7 +1170,7 @@ func (cx *evalCtx) specCall(sf *SpecFunc, args []TV) (TV, error) {
 				a.T = t
 			}
 		}
-		if strings.HasPrefix(a.S, "(") && len(a.S) > 40 {
+		if strings.HasPrefix(a.S, "(") && len(a.S) > 40 && !strings.Contains(a.S, "q_") {
 			a.S = r.define("sa", a.Sort, a.S)
 		}
 		n.binds[p.Name] = a
